@@ -17,6 +17,7 @@ package redis
 import (
 	"bytes"
 	"strconv"
+	"strings"
 )
 
 type RespType byte
@@ -90,6 +91,12 @@ func (r *RespValue) Equal(that *RespValue) bool {
 }
 
 func newError(s string) *RespValue {
+	// an error is a single line on the wire: a CR or LF copied from a request
+	// (e.g. an unknown command name) would end the reply early and the rest
+	// would be read as further replies.
+	if strings.ContainsAny(s, "\r\n") {
+		s = strings.NewReplacer("\r", " ", "\n", " ").Replace(s)
+	}
 	return &RespValue{
 		Type: Error,
 		Text: []byte(s),
